@@ -151,8 +151,13 @@ CLAIMS = {
              "summarising observers are decided against the reference bit vector: polarity of the std::find/"
              "std::count definitions of all/any/none/count, visit-all proofs for to_ulong (start 0, step 1, ends only "
              "at size(), overflow exception only for a set position >= 64, shift distance < 64) and to_string "
-             "(size() characters, a set bit i stores `one` at size()-1-i). Bit-level results of the mutating "
-             "operators (&=, |=, ^=, shifts, flip) and the order of iteration are not decided.",
+             "(size() characters, a set bit i stores `one` at size()-1-i). The mutating operators (flip, reset, resize, "
+             "set/reset/flip( pos), operator= from a vector, &=, |=, ^=, ~, <<, <<=, >>, >>=) are decided bit by bit: "
+             "a bit-level content model of std::vector<bool> (element reads are bit expressions, element writes / "
+             "resize / flip / copies are log entries, element-wise loops are summarised into one entry after proving "
+             "that no iteration reads what an earlier one wrote) lets the bit at a symbolic position of the result "
+             "be resolved and compared with the reference bit vector for every operand, size and shift distance. "
+             "set() (range-for over proxies), operator[] (growing access), == and the order of iteration are not decided.",
         note="trusted base: clang front end, extractor, cv/lin.py + cv/bounds.py, the size model of std::vector<bool>, "
              "std::find/std::count semantics; shift distances < 2^62 assumed",
         technique="static analysis: relational (linear inequality) abstract interpretation, inductive loop/iterator invariants"),
